@@ -388,16 +388,20 @@ def compress(codec, b):
     raise ValueError("codec %d not available in the independent writer" % codec)
 
 
-def build_file(columns, codec=0, with_crc=False, created_by=b"robust_pq"):
+def build_file(columns, codec=0, with_crc=False, created_by=b"robust_pq", schema_elems=None):
     """columns: list of dicts {name, type, rep, tlen, rows (values or None), dict (bool), enc}
-    One row group, one data page (+ optional dictionary page) per column."""
+    One row group, one data page (+ optional dictionary page) per column.
+    Nested schemas: give schema_elems = [(name, type or None, repetition or None, num_children, tlen), ...]
+    (depth-first, root first) and per column "levels" (definition levels, one per row), "max_def" and
+    "path" (list of names); rows then holds the present values only."""
     out = bytearray(MAGIC)
-    nrows = len(columns[0]["rows"]) if columns else 0
+    nrows = (len(columns[0]["levels"]) if "levels" in columns[0] else len(columns[0]["rows"])) if columns else 0
     chunks = []
     for col in columns:
         t, rep = col["type"], col.get("rep", REQUIRED)
         rows = col["rows"]
         present = [v for v in rows if v is not None]
+        nrows_col = len(col["levels"]) if "levels" in col else len(rows)
         start = len(out)
         dict_off = None
         if col.get("dict"):
@@ -419,24 +423,40 @@ def build_file(columns, codec=0, with_crc=False, created_by=b"robust_pq"):
             vbody = plain(t, present, col.get("tlen", 0))
             enc = PLAIN
         body = b""
-        if rep == OPTIONAL:
+        if "levels" in col:
+            body += levels_block(col["levels"], col["max_def"])
+        elif rep == OPTIONAL:
             body += levels_block([0 if v is None else 1 for v in rows], 1)
         body += vbody
         cbody = compress(codec, body)
         data_off = len(out)
         out += page_header(0, len(body), len(cbody), 5,
-                           [[1, T_I32, len(rows)], [2, T_I32, enc], [3, T_I32, RLE], [4, T_I32, RLE]],
+                           [[1, T_I32, nrows_col], [2, T_I32, enc], [3, T_I32, RLE], [4, T_I32, RLE]],
                            zlib.crc32(cbody) if with_crc else None)
         out += cbody
         md = [[1, T_I32, t], [2, T_LIST, ("list", T_I32, [PLAIN, RLE] + ([PLAIN_DICTIONARY] if dict_off is not None else []), None)],
-              [3, T_LIST, ("list", T_BINARY, [col["name"].encode()], None)], [4, T_I32, codec],
-              [5, T_I64, len(rows)], [6, T_I64, len(out) - start], [7, T_I64, len(out) - start],
+              [3, T_LIST, ("list", T_BINARY, [x.encode() for x in col.get("path", [col["name"]])], None)], [4, T_I32, codec],
+              [5, T_I64, nrows_col], [6, T_I64, len(out) - start], [7, T_I64, len(out) - start],
               [9, T_I64, data_off]]
         if dict_off is not None:
             md.append([11, T_I64, dict_off])
         chunks.append([[2, T_I64, start], [3, T_STRUCT, md]])
     schema = [[[4, T_BINARY, b"schema"], [5, T_I32, len(columns)]]]
-    for col in columns:
+    if schema_elems is not None:
+        schema = []
+        for (nm, ty, rp, nch, tl) in schema_elems:
+            e = []
+            if ty is not None:
+                e.append([1, T_I32, ty])
+                if ty == FLBA:
+                    e.append([2, T_I32, tl])
+            if rp is not None:
+                e.append([3, T_I32, rp])
+            e.append([4, T_BINARY, nm.encode()])
+            if ty is None:
+                e.append([5, T_I32, nch])
+            schema.append(e)
+    for col in (columns if schema_elems is None else []):
         e = [[1, T_I32, col["type"]]]
         if col["type"] == FLBA:
             e.append([2, T_I32, col.get("tlen", 0)])
